@@ -91,6 +91,63 @@ def explore(ctx, rng, count):
             ctx.diffs.append(d)
 
 
+def alias_stream(ctx, rng, count, fixed=None):
+    """The main assertion is just the NAME of a sub-specification (not necessarily the one defined last), or a name under one
+    operator: modular vs inlined, offd / ond."""
+    for _ in range(1 if fixed else count):
+        if fixed:
+            subs, main, mon, n, data = fixed["subs"], fixed["main"], fixed["monitor"], fixed["n"], fixed["data"]
+        else:
+            g = F.Gen(rng, ["a", "b"], F.PAST_ONLY - {"fn", "iffxor"}, max_bound=2)
+            k = rng.choice([2, 2, 3])
+            subs = [["p%d" % i, "(" + F.to_text(g.formula(rng.choice([0, 1, 2]))) + ")"] for i in range(k)]
+            tgt = rng.choice(subs[:-1]) if rng.random() < 0.7 else subs[-1]
+            main = rng.choice(["%s", "%s", "(%s)", "not(%s)", "once(%s)"]) % tgt[0]
+            mon = rng.choice(["offd", "ond"])
+            n = rng.randint(2, 8)
+            data = F.gen_trace(rng, ["a", "b"], n)
+        inl = main
+        for nm, body in subs:
+            inl = re.sub(r"\b%s\b" % nm, lambda _m, b=body: b, inl)
+
+        def run(text, extra, sub_specs=()):
+            def go():
+                spec = impl.make_spec(mon, text, ["a", "b"], extra_decl=extra, sub_specs=list(sub_specs))
+                spec.parse()
+                if mon == "offd":
+                    ds = {"time": list(range(n))}
+                    ds.update({v: list(data[v]) for v in data})
+                    return [p_[1] for p_ in spec.evaluate(ds)]
+                return [spec.update(i, [(v, data[v][i]) for v in ("a", "b")]) for i in range(n)]
+            return impl.guarded(go)
+        names = [nm for nm, _ in subs]
+        lines = ["%s = %s;" % (nm, body) for nm, body in subs]
+        as_text = run("\n".join(lines) + "\nout = " + main, names)
+        as_subs = run("out = " + main, names, sub_specs=lines)
+        inlined = run("out = " + inl, [])
+        rep = {"kind": "alias", "subs": subs, "main": main, "monitor": mon, "n": n, "data": data, "inlined": "out = " + inl,
+               "impl_text": as_text, "impl_add_sub_spec": as_subs, "impl_inlined": inlined}
+        ctx.evaluations += 1
+        ctx.count("stream:alias")
+        bad = None
+        if inlined[0] == "ok":
+            for what, o in (("one text", as_text), ("add_sub_spec", as_subs)):
+                if o[0] != "ok" or not same_vals(o[1], inlined[1]):
+                    bad = "%s monitor, %s: the modular specification gives %r, its inlined form %r" % (mon, what, o[1:], inlined[1])
+                    break
+        if bad:
+            v = Violation("%s: %s; out = %s" % (bad, " ".join(lines), main), rep, stream="mod/alias")
+            if fixed:
+                return v
+            ctx.violations.append(v)
+            if len(ctx.violations) >= 3:
+                return None
+        else:
+            ctx.traces_validated += 1
+            ctx.nontrivial.add((str(subs), main, mon, str(data)))
+    return None
+
+
 def named_term_stream(ctx, rng, count, fixed=None):
     """A named ARITHMETIC sub-expression over variables of one interface class, referenced twice: once combined with a variable of
     the other class, once alone inside a predicate - under the interface-aware semantics (which variables a node mentions decides
@@ -148,6 +205,9 @@ def named_term_stream(ctx, rng, count, fixed=None):
 
 
 def replay(ctx, obj):
+    if obj.get("kind") == "alias":
+        v = alias_stream(Ctx(ctx.id, ctx.tier, ctx.seed), None, 1, fixed=obj)
+        return (v is None), (v.what if v else "modular and inlined specifications agree on the replayed case")
     if obj.get("kind") == "named-term":
         v = named_term_stream(Ctx(ctx.id, ctx.tier, ctx.seed), None, 1, fixed=obj)
         return (v is None), (v.what if v else "modular and inlined specifications agree on the replayed case")
@@ -167,6 +227,8 @@ def run(ctx):
     explore(ctx, ctx.subrng("mod"), ctx.budget(900, 8000))
     if not ctx.violations:
         named_term_stream(ctx, ctx.subrng("named-term"), ctx.budget(150, 1000))
+    if not ctx.violations:
+        alias_stream(ctx, ctx.subrng("alias"), ctx.budget(100, 800))
     if not ctx.violations:
         try:
             from .. import dense
